@@ -526,7 +526,7 @@ def _sd(*parts):
     return int(_hu("seed", *parts) * (2 ** 31 - 1))
 
 
-def _long_values(n, seed, kind, amp):
+def _long_values(n, seed, kind, amp, polarity="both"):
     """Record of a long case (pure function of its arguments).  Ordinary data (noise x rising envelope + offset: every stretch
     differs, all six decimals populated) or the element-wise class mix of the short records (tiny, large, integers, zeros, format
     edge values / exact ties sprinkled over it); first and last sample non-zero and unlike their neighbours."""
@@ -545,6 +545,10 @@ def _long_values(n, seed, kind, amp):
         raise ValueError(kind)
     v[0] = 0.654321 * float(amp)
     v[-1] = -1.234567 * float(amp)
+    if polarity == "neg":    # a property of the WHOLE record: no positive sample at all
+        v = -np.abs(v)
+    elif polarity == "pos":
+        v = np.abs(v)
     return v
 
 
@@ -595,7 +599,7 @@ _LONG_DT = [0.01, 0.005, 0.02, 0.0025, 0.004, 0.001, 0.1, 1.0, 1.5, 2, 10, 12.34
 
 def _long_case(n, i, tag):
     c = {"n": int(n), "seed": _sd(tag, i), "kind": _hpick(["ordinary", "mix", "mix"], tag, "kind", i),
-         "amp": _hpick([1.0, 1.0, 0.01, 37.5, 2500.0], tag, "amp", i),
+         "amp": _hpick([1.0, 1.0, 0.01, 37.5, 2500.0, 1e-4], tag, "amp", i), "polarity": _hpick(["both", "both", "neg", "pos"], tag, "pol", i),
          "as": _hpick(["ndarray", "ndarray", "list", "int", "view", "readonly"], tag, "as", i),
          "dt": _hpick(_LONG_DT, tag, "dt", i), "m": _hpick(_LONG_M, tag, "m", i),
          "saved_as": _hpick(["values", "signal", "acc_sig"], tag, "sv", i), "via_reset": _hu(tag, "vr", i) < 0.35,
@@ -624,7 +628,7 @@ def _block_enum(tier, shard, nshards):
 
 def _long_check(case, ctx):
     n = int(case["n"])
-    v = _long_values(n, case["seed"], case["kind"], case["amp"])
+    v = _long_values(n, case["seed"], case["kind"], case["amp"], case.get("polarity", "both"))
     spec = {"as": case["as"]} if case["as"] != "ndarray" else {}
     arg = gen.as_container(spec, v)
     seen = np.array(arg, dtype=float)
@@ -633,6 +637,7 @@ def _long_check(case, ctx):
     dt, m = case["dt"], case["m"]
     mag = np.abs(seen)
     ctx.cls("kind=" + case["kind"], "as=" + case["as"], "saved=" + case["saved_as"], gen.size_class(n), "path=" + case["path"],
+            "polarity=" + case.get("polarity", "both"),
             "dt>=1" if dt >= 1 else "dt<1", "dt-int" if isinstance(dt, int) else None,
             "m=default" if m is None else ("m=0" if m == 0 else ("m<0" if m < 0 else "m>0")), "m-int" if isinstance(m, int) else None,
             "label-long" if len(label) > 30 else None, "label-space" if " " in label else None,
@@ -678,7 +683,7 @@ _LONG_ORACLE = ("round trip save_values_and_dt | save_signal(Signal | AccSignal,
 @enum_clause(CLAUSES, "mid-range", _mid_enum,
              rule="record lengths gen.size_ladder(401, 100000, 14) + one 'round' length per octave (1000, 2500, 16000 ...) + 2nd / 3rd multiples "
                   "of the integer literals of the source + an anchor just above 100000 (thorough: to 1 000 000, 34 + 14 rungs); ordinary "
-                  "(noise x envelope + offset, amplitudes 0.01 .. 2500) or the class mix (tiny, +-1e6..1e15, integers, zeros, format edge values "
+                  "(noise x envelope + offset, amplitudes 1e-4 .. 2500, two-sided / all non-positive / all non-negative) or the class mix (tiny, +-1e6..1e15, integers, zeros, format edge values "
                   "and exact ties sprinkled in); ndarray / list / int64 / strided / read-only; dt from 16 values incl. >= 1 s and int; m from "
                   "{not given, 1, -2.5, 1e-3, 0, 2, -3, 9.81, -1/16, 386.0886}; labels special or random printable of laddered length 3..300; "
                   "five path forms; by hash of (VERIF_SEED, index)",
